@@ -59,7 +59,7 @@ let show total s buf =
 (* `s | <hex> | sizes` : parse the headers, then decode the first scan (sequential Huffman, single scan)
    with the MCU units under the given partition of the entropy-coded bytes *)
 let cdiv a b = (a + b - 1) / b
-let scan_case hex sizes =
+let scan_case sw hex sizes =
   let bytes = hexbytes (String.trim hex) in
   match run_markers [zl bytes] (minit default_procs (List.map nat_of_int (Array.to_list (Array.make 17 0)))) with
   | Halted (s, buf) ->
@@ -77,7 +77,7 @@ let scan_case hex sizes =
       let bls = scan_blocks s (List.map nat_of_int nblk) in
       let data = il buf in
       let cs = List.map zl (chunks sizes data) in
-      (match run_scan bls cs (hinit (nat_of_int cis) (z_of_int ri) (nat_of_int nmcu)) with
+      (match (if sw then run_scan_sw else run_scan) bls cs (hinit (nat_of_int cis) (z_of_int ri) (nat_of_int nmcu)) with
        | Halted (hs, _) ->
            let hsh = ref 0xCBF29CE484222325L in
            List.iter (fun mcu -> List.iter (fun blk -> List.iter (fun v ->
@@ -120,7 +120,8 @@ let refine_case hd bits vals coefs hex sizes =
 
 let () = iter_lines (fun line ->
   match fields line with
-  | [ "s"; hex; sizes ] -> scan_case hex (ints sizes)
+  | [ "s"; hex; sizes ] -> scan_case false hex (ints sizes)
+  | [ "s2"; hex; sizes ] -> scan_case true hex (ints sizes)      (* with the decode_mcu_fast switch *)
   | [ hd; bits; vals; coefs; hex; sizes ] when String.length hd > 1 && hd.[0] = 'r' -> refine_case hd bits vals coefs hex sizes
   | [ hd; hex; sizes ] ->
       (match words hd with
